@@ -158,9 +158,20 @@ def _member_vars(f):
     """names bound to member datatypes inside comprehensions / loops of the method, and the expressions
     that denote a member datatype directly"""
     names = set()
-    for n in ast.walk(f.node):
+    for _round in range(2):       # a second round sees pairs built from names found in the first
+      for n in ast.walk(f.node):
         if isinstance(n, (ast.comprehension, ast.For)):
             it, tgt = n.iter, n.target
+            if isinstance(it, ast.Name) and isinstance(n, ast.For):
+                it = resolved(it, f.node)           # `pairs = zip(self.members, ...)` ... `for ours, theirs in pairs:`
+            if isinstance(it, (ast.List, ast.Tuple, ast.GeneratorExp, ast.ListComp)) and isinstance(tgt, ast.Tuple):
+                # a display / comprehension of tuples: the positions that hold one of our member datatypes
+                rows = it.elts if isinstance(it, (ast.List, ast.Tuple)) else [it.elt]
+                for row in rows:
+                    if isinstance(row, ast.Tuple) and len(row.elts) == len(tgt.elts):
+                        for i, e in enumerate(row.elts):
+                            if isinstance(tgt.elts[i], ast.Name) and (src(e) == 'self.members' or (isinstance(e, ast.Name) and e.id in names)):
+                                names.add(tgt.elts[i].id)
             if isinstance(it, ast.Call) and dotted(it.func) == 'zip':
                 for i, a in enumerate(it.args):
                     if src(a) == 'self.members' and isinstance(tgt, ast.Tuple) and i < len(tgt.elts) and isinstance(tgt.elts[i], ast.Name):
@@ -516,6 +527,13 @@ def enum_text_is_the_member_name_first(ctx):
                 'the text form offered by to_string (the bare name) is not accepted back', fs)
         return
     nid = [i for c in byname for i in cfg.node_of(c)]
+    # a membership test of the text in the member table counts as the look-up (`if name in self._enum: ... else: literal`)
+    for t in cfg.nodes:
+        if t.kind == 'test' and not isinstance(t.ast, ast.stmt):
+            for a, tv in facts_on_side(t.ast, True) + facts_on_side(t.ast, False):
+                if isinstance(a, ast.Compare) and len(a.ops) == 1 and isinstance(a.ops[0], (ast.In, ast.NotIn)) and src(a.comparators[0]) == 'self._enum' \
+                        and tp in names_in(resolved(a.left, fs.node)):
+                    nid.append(t.id)
     for c in lit:
         ok = all(cfg.dominates(nid, i) for i in cfg.node_of(c))
         ctx.check(ok, f'{fs.qualname}:name lookup before literal evaluation', c, 'the literal form is tried only after the name lookup failed',
@@ -523,3 +541,11 @@ def enum_text_is_the_member_name_first(ctx):
                   "(e.g. {'1': 0, '2': 1}) the text '1' produced by to_string for code 0 is read as the code 1 - another member", fs)
     if not lit:
         ctx.ok(f'{fs.qualname}:name lookup before literal evaluation', fs.node, 'only the name lookup', fs)
+
+
+@rule('C02.R11', min_instances=1)
+def a_value_at_its_limit_is_accepted_back(ctx):
+    """shared with C01.R11b: what export_value hands out is fed to import_value / from_string on the other side - a value of
+    exactly the declared maximal length must pass the conversion there (a `range(lo, hi)` membership test excludes hi)"""
+    from sa.rules import c01
+    c01.range_membership_has_inclusive_bounds(ctx)
